@@ -165,7 +165,7 @@ func c08(args []string) {
 				Outs: []*spec.Out{{Port: "out", Pattern: "mj.{i:in|basename}.out"}}},
 			&spec.Proc{Name: "ROUT", Kind: spec.KRecorder})
 		s.Conns = append(s.Conns, &spec.Conn{From: "RCAR.out", To: "MJ.in"}, &spec.Conn{From: "MJ.out", To: "ROUT.in"})
-		cfg := Cfg{Buf: []int{1, 3, 128}[i%3], Procs: []int{2, 4}[i%2]}
+		cfg := Cfg{Buf: []int{1, 3, 128}[i%3], Procs: []int{2, 4}[i%2], NoHooks: i%4 < 2}
 		res := execSpec(c, root, s, cfg, bh, false, 0)
 		if res.Hang != "" {
 			if strings.HasPrefix(res.Hang, "deadlock") {
@@ -272,7 +272,7 @@ func c08(args []string) {
 		}
 		s.Procs = append(s.Procs, src, &spec.Proc{Name: "RIN", Kind: spec.KRecorder}, &spec.Proc{Name: "SP", Kind: spec.KSplitter, Lines: 1 + i%3}, &spec.Proc{Name: "ROUT", Kind: spec.KRecorder})
 		s.Conns = append(s.Conns, &spec.Conn{From: "src.out", To: "RIN.in"}, &spec.Conn{From: "RIN.out", To: "SP.file"}, &spec.Conn{From: "SP.split_file", To: "ROUT.in"})
-		cfg := Cfg{Buf: []int{1, 3, 128}[i%3], Procs: 2}
+		cfg := Cfg{Buf: []int{1, 3, 128}[i%3], Procs: 2, NoHooks: i%2 == 0}
 		res := execSpec(c, root, s, cfg, nil, false, 0)
 		if res.Exit != 0 || !res.Returned {
 			c.Inconclusive("splitter order run failed")
